@@ -93,4 +93,29 @@ class planned_any:
         return planned.main(self, seqs)
 
 
+@define_app
+def planned_func(seqs: SeqsCollectionType, tag: str = "", outcomes: dict = None, seen: list = None) -> planned.T:
+    """a function-based step with mutable constructor arguments that it modifies:
+    composable hands every call its own copy, so what one input did to them must
+    never reach the next input"""
+    stem = stem_of(seqs.info.source)
+    CALL_LOG.append((tag, stem))
+    seen.append(stem)
+    outcome = outcomes.pop(stem, "ok")
+    outcomes.clear()
+    me = "planned_func"
+    if outcome == "raise":
+        raise ValueError(f"planned failure of {stem} in {tag}")
+    if outcome == "none":
+        return None
+    if outcome == "false":
+        return NotCompleted("FALSE", me, f"planned false for {stem} in {tag}", source=seqs)
+    if outcome == "relabel":
+        return NotCompleted("FALSE", me, f"planned relabel for {stem} in {tag}", source=f"label-of-{stem}")
+    if outcome == "wrong":
+        return {"wrong": "type", "stem": stem}
+    carried = "" if seen == [stem] else "+carried:" + ",".join(seen[:-1])
+    return seqs.rename_seqs(lambda n: f"{n}{tag}{carried}")
+
+
 STEP_CLASSES = (planned, planned2, planned3)
